@@ -188,11 +188,23 @@ pub mod novasmt_db {
     #[verifier::external_body] #[verifier::accept_recursive_types(C)]
     pub struct Database<C: ContentAddrStore> { _c: core::marker::PhantomData<C> }
     pub uninterp spec fn db_has<C: ContentAddrStore>(db: Database<C>, root: [u8; 32]) -> bool;
+    /// novasmt::InMemoryCas: a fresh in-memory store
+    pub struct InMemoryCas {}
+    impl super::ContentAddrStore for InMemoryCas {}
+    impl Default for InMemoryCas { #[verifier::external_body] fn default() -> (r: InMemoryCas) { unimplemented!() } }
+    /// novasmt::dense::DenseMerkleTree (TIP-908 transactions root): only its root is observed
+    #[verifier::external_body] pub struct DenseMerkleTree { _p: u8 }
+    impl DenseMerkleTree { pub uninterp spec fn root(&self) -> [u8; 32]; #[verifier::external_body] pub fn root_hash(&self) -> (r: [u8; 32]) ensures r == self.root() { unimplemented!() } }
     impl<C: ContentAddrStore> Database<C> {
+        /// every store holds the empty tree (all-zero root)
+        #[verifier::external_body]
+        pub fn new(cas: C) -> (r: Database<C>) ensures forall|z: [u8; 32]| z@ == Seq::new(32, |i: int| 0u8) ==> #[trigger] db_has(r, z) { unimplemented!() }
         #[verifier::external_body]
         pub fn get_tree(&self, root: [u8; 32]) -> (r: Option<novasmt::Tree<C>>)
             ensures db_has(*self, root) ==> r is Some, r is Some ==> novasmt::root_of(r->Some_0@) == root
         { unimplemented!() }
     }
 }
-pub use novasmt_db::Database;
+pub use novasmt_db::{Database, InMemoryCas, DenseMerkleTree};
+/// `<[u8; 32] as Default>::default()` (declared substitution): the all-zero root of the empty tree
+#[verifier::external_body] pub fn zero_root() -> (r: [u8; 32]) ensures r@ == Seq::new(32, |i: int| 0u8) { unimplemented!() }
